@@ -218,8 +218,8 @@ func prefilterFunc(pattern string) func(string) bool {
 		// A literal is the prefix/suffix constraint only when it survived
 		// filterShort (len >= 2), meaning it IS the first/last literal in the
 		// pattern and not replaced by a longer one that appeared elsewhere.
-		usePrefix := hasBeginAnchor(re) && len(origFirst) >= 2
-		useSuffix := hasEndAnchor(re) && len(origLast) >= 2
+		usePrefix := literalAfterBeginAnchor(re, caseInsensitive) && len(origFirst) >= 2
+		useSuffix := literalBeforeEndAnchor(re, caseInsensitive) && len(origLast) >= 2
 		if !usePrefix && !useSuffix {
 			// No anchor: sort longest-first for best early exit.
 			slices.SortFunc(filtered, func(a, b string) int { return len(b) - len(a) })
@@ -1005,6 +1005,33 @@ func hasEndAnchor(re *syntax.Regexp) bool {
 	return false
 }
 
+// literalAfterBeginAnchor reports whether the pattern is \A immediately followed by a literal
+// that extractLiterals keeps: only then is the first required literal known to sit at
+// position 0. With anything in between (`\A.*foo`, `\A(?:a|b)foo`) the literal can be anywhere
+// and must be searched with Contains.
+func literalAfterBeginAnchor(re *syntax.Regexp, ci bool) bool {
+	for re.Op == syntax.OpCapture {
+		re = re.Sub[0]
+	}
+	if re.Op != syntax.OpConcat || len(re.Sub) < 2 || re.Sub[0].Op != syntax.OpBeginText {
+		return false
+	}
+	return re.Sub[1].Op == syntax.OpLiteral && extractLiterals(re.Sub[1], ci) != nil
+}
+
+// literalBeforeEndAnchor is the mirror image for \z: the last required literal ends the input
+// only when it is the literal immediately before the anchor.
+func literalBeforeEndAnchor(re *syntax.Regexp, ci bool) bool {
+	for re.Op == syntax.OpCapture {
+		re = re.Sub[0]
+	}
+	n := len(re.Sub)
+	if re.Op != syntax.OpConcat || n < 2 || re.Sub[n-1].Op != syntax.OpEndText {
+		return false
+	}
+	return re.Sub[n-2].Op == syntax.OpLiteral && extractLiterals(re.Sub[n-2], ci) != nil
+}
+
 // hasPrefixFoldASCII reports whether s begins with prefix (ASCII case-insensitive).
 // prefix must already be lowercase.
 func hasPrefixFoldASCII(s, prefix string) bool {
@@ -1110,8 +1137,8 @@ func buildCombinedPF(v combinedRequired, ci bool, re *syntax.Regexp) func(string
 
 	var allPF func(string) bool
 	if len(filteredAll) > 0 {
-		usePrefix := hasBeginAnchor(re) && len(origFirst) >= 2
-		useSuffix := hasEndAnchor(re) && len(origLast) >= 2
+		usePrefix := literalAfterBeginAnchor(re, ci) && len(origFirst) >= 2
+		useSuffix := literalBeforeEndAnchor(re, ci) && len(origLast) >= 2
 		if !usePrefix && !useSuffix {
 			slices.SortFunc(filteredAll, func(a, b string) int { return len(b) - len(a) })
 		}
